@@ -296,11 +296,11 @@ def execute(case):
     if not ck.require(torch.is_tensor(Ltt) and Ltt.numel() == 1, "value_type", "expression did not return a scalar tensor"):
         return ck.verdict()
     Ltt = Ltt.reshape(())
-    scaleL = abs(float(Ldn)) + 1e-300
-    if case["terminal"]["op"] in ("norm",) and float(Ldn) < 1e-6:
+    scaleL = abs(float(Ldn.detach())) + 1e-300
+    if case["terminal"]["op"] in ("norm",) and float(Ldn.detach()) < 1e-6:
         ck.label("skipped_norm_at_zero")
         return ck.verdict()
-    ck.bound(abs(float(Ltt) - float(Ldn)), 1e-10 * (scaleL + 1.0), "value")
+    ck.bound(abs(float(Ltt.detach()) - float(Ldn.detach())), 1e-10 * (scaleL + 1.0), "value")
     used_tracked = [(l, i, t) for (l, i, t) in tracked if l in used]
     if any(l in ("A", "B") for l, _, _ in used_tracked):
         ck.label("operator_tracked")
